@@ -2,6 +2,7 @@ import Autog.Lemmas.Layers
 import Autog.Model.Phase4
 import Autog.Model.Pipeline
 import Autog.Lemmas.Frame
+import Autog.Lemmas.StaticP4
 /-! # C16 — VAlign centres and PackRight right-aligns every band with exact spacing
 
     Theorems about the model functions `execVerticalAlign` and `execPackRight` (Autog/Model/Phase4.lean), which the
@@ -184,5 +185,38 @@ theorem C16_public_nodes_packright (cfg : Cfg) (hp4 : cfg.p4 = 2) (shift : Rat) 
     (collectComp cfg shift ci (postProcess g5 loops)).nodes =
       (collectComp cfg shift ci (assignYCoords cfg.ls (execPackRight cfg.ns g3))).nodes :=
   ⟨phase4Model_packright cfg hp4 g3 hn, (public_nodes_from_phase4 cfg shift ci _ g5 loops h5).1⟩
+
+end Autog
+
+namespace Autog
+
+/-! ## the widths the positioners see are the caller's sizes -/
+
+theorem statEq_width (g g' : G) (h : StatEq g g') (n : Nat) (hn : n < g'.nodes.size) :
+    (g'.node n).w = if n < g.nodes.size then (g.node n).w else 0 := by
+  by_cases h0 : n < g.nodes.size
+  · have := h.stat n h0
+    simp only [Node.stat, Prod.mk.injEq] at this
+    simp [h0, this.2.1]
+  · simp only [h0, if_false]
+    exact (h.fresh n (by omega) hn).2.1
+
+/-- the state the positioner receives: cycle breaking, layering, long-edge cutting and ordering have kept the node table -/
+theorem statEq_upto_phase3 (ord : G → M G) (hord : ∀ g g', ord g = .ok g' → StatEq g g') (cfg : Cfg) (g0 g1 g2 g3 : G)
+    (h1 : phase1 cfg.p1 g0 = .ok g1) (h2 : phase2Model cfg g1 = .ok g2) (h3 : phase3Model ord g2 = .ok g3) : StatEq g0 g3 :=
+  ((statEq_phase1 _ _ _ h1).trans (statEq_phase2Model _ _ _ h2)).trans (statEq_phase3Model ord hord _ _ h3)
+
+/-- END TO END: in every band the positioner lays out, the width of a real node is the size the caller configured for it and the
+    width of a helper node is 0 — so the exact-extent, centring and right-alignment statements above are statements in terms of
+    the caller's sizes -/
+theorem C16_widths_from_input (ord : G → M G) (hord : ∀ g g', ord g = .ok g' → StatEq g g') (cfg : Cfg) (g0 g1 g2 g3 : G)
+    (h1 : phase1 cfg.p1 g0 = .ok g1) (h2 : phase2Model cfg g1 = .ok g2) (h3 : phase3Model ord g2 = .ok g3)
+    (hwf : LayersWF g3) (l : Layer) (hl : l ∈ g3.layers.toList) :
+    widthsOf g3 l = l.nodes.map fun n => if n < g0.nodes.size then (g0.node n).w else 0 := by
+  unfold widthsOf
+  apply List.map_congr_left
+  intro n hn
+  exact statEq_width g0 g3 (statEq_upto_phase3 ord hord cfg g0 g1 g2 g3 h1 h2 h3) n
+    (hwf.bound n (List.mem_flatMap.2 ⟨l, hl, hn⟩))
 
 end Autog
